@@ -111,23 +111,25 @@ fn phrase(p: Profile) -> impl Strategy<Value = Vec<Op>> {
     proptest::strategy::Union::new_weighted(alts)
 }
 
-pub fn strategy(p: Profile) -> impl Strategy<Value = Case> {
+pub fn strategy(p: Profile, deep: bool) -> impl Strategy<Value = Case> {
+    let max_phrases = if deep { p.max_phrases * 2 } else { p.max_phrases };
+    let max_conns = if deep { 24 } else { 12 };
     let kinds = if p.uds { vec![LKind::Tcp, LKind::Uds] } else { vec![LKind::Tcp] };
     let nl = if p.two_listeners { 1..3usize } else { 1..2usize };
     (
         1..=p.max_workers,
         prop::sample::select(p.limits.to_vec()),
         prop::collection::vec(prop::sample::select(kinds), nl),
-        prop::collection::vec(phrase(p), 1..p.max_phrases),
+        prop::collection::vec(phrase(p), 1..max_phrases),
     )
-        .prop_map(|(workers, limit, listeners, phrases)| {
+        .prop_map(move |(workers, limit, listeners, phrases)| {
             let mut ops: Vec<Op> = phrases.into_iter().flatten().collect();
             // keep a case within the exploration bound on total connections
             let mut conns = 0;
             ops.retain(|o| {
                 if matches!(o, Op::Connect { .. } | Op::ConnectRace { .. }) {
                     conns += 1;
-                    conns <= 12
+                    conns <= max_conns
                 } else {
                     true
                 }
@@ -168,5 +170,6 @@ pub const RULE_L2: &str = "L2: schedules (lists of ops over connect / connect-wi
 
 pub fn run_l2_part(ctx: &Ctx, name: &str, prop: Prop, profile: Profile, cases: u64, floors: &[(&str, f64)], nt_rule: &str) {
     let rule = format!("{RULE_L2}; non-trivial = {nt_rule}");
-    ctx.run_random(Part::new(name, &rule, cases).floors(floors).shrink_iters(4000), || strategy(profile), |c| check(prop, c));
+    let deep = ctx.tier == vcore::Tier::Thorough;
+    ctx.run_random(Part::new(name, &rule, cases).floors(floors).shrink_iters(4000), move || strategy(profile, deep), |c| check(prop, c));
 }
